@@ -58,7 +58,7 @@ func Main(c *run.Ctx) {
 				map[string]any{"case": out.OpenCase, "stderr": tail(out.Stderr, 4000)})
 		}
 	}
-	for _, f := range []string{"proto:otlp-traces", "proto:zipkin-json", "proto:zipkin-ndjson", "spans with nested attributes", "spans > 64 KiB"} {
+	for _, f := range []string{"proto:otlp-traces", "proto:zipkin-json", "proto:zipkin-ndjson", "spans with nested attributes", "spans > 64 KiB", "pushes delivered by the parser in several chunks"} {
 		c.Floor(f, 1, 0)
 	}
 	c.Floor("spans read back and compared", total, 0)
@@ -91,6 +91,10 @@ func Child(c *run.Ctx, name string) {
 		}
 		if gi%29 == 3 {
 			o.BigAttrs = true // > 64 KiB spans
+		}
+		if gi%500 == 77 || gi%500 == 78 || gi%500 == 79 {
+			// enough rows to cross the parser's 1 MiB chunk threshold several times
+			o.Groups, o.N, o.Hostile = 2+r.Intn(3), 2500+r.Intn(1500), false
 		}
 		sc := gen.NewSpanCase(r, o)
 		var rq gen.Request
@@ -135,11 +139,20 @@ func Child(c *run.Ctx, name string) {
 		var traces wmodel.TempoSamples
 		var tags wmodel.TempoTag
 		var perr error
+		// like controller.doParse/doPush the consumer keeps every chunk it was handed and reads it later, while the
+		// parser goes on with the rest of the body: the chunks are merged only after the channel is closed
+		var chunks []*wmodel.ParserResponse
 		for resp := range parser(context.Background(), bytes.NewReader(rq.Body), nocache{}) {
 			if resp.Error != nil {
 				perr = resp.Error
 				continue
 			}
+			chunks = append(chunks, resp)
+		}
+		if len(chunks) > 1 {
+			c.Floor("pushes delivered by the parser in several chunks", 0, 1)
+		}
+		for _, resp := range chunks {
 			if t, ok := resp.SpansRequest.(*wmodel.TempoSamples); ok && t != nil {
 				traces.MTraceId = append(traces.MTraceId, t.MTraceId...)
 				traces.MSpanId = append(traces.MSpanId, t.MSpanId...)
